@@ -892,6 +892,7 @@ pub struct Stats {
     pub fault_kinds_fired: BTreeMap<String, u64>,
     pub probes: BTreeMap<String, u64>,
     pub tuples: Vec<u64>,
+    pub base_identity: u64,
 }
 
 fn shape_class(w: &C13World) -> String {
@@ -906,6 +907,12 @@ pub fn run_one(root_seed: u64, i: u64, max_plans: usize, st: &mut Stats) -> Opti
     let base = run_world(&w.world, &[]);
     st.spawns += 1;
     st.io_calls += base.log.len() as u64;
+    st.base_identity = crate::rng::fnv1a64(&base.identity());
+    if let Ok(d) = std::env::var("VERIF_DEBUG_IDENTITY") {
+        if i == 0 {
+            let _ = std::fs::write(d, base.identity_text());
+        }
+    }
     let root = PathBuf::from(&base.root);
     let pred = predict(&w, &root);
     crate::util::merge_counts(&mut st.probes, &pred.probes);
@@ -1011,6 +1018,7 @@ pub fn replay(scenario: &Json) -> Result<Option<Violation>, String> {
 
 pub fn run_batch(tier: &str, root: u64, workers: usize, scale: u64) -> i32 {
     let (worlds, max_plans) = if tier == "thorough" { (10_000 * scale, 60usize) } else { (300 * scale, 24usize) };
+    let worlds = crate::util::runs_override(worlds);
     let start = Instant::now();
     let results = crate::util::run_pool(worlds, workers, |i| {
         let mut st = Stats::default();
@@ -1024,6 +1032,7 @@ pub fn run_batch(tier: &str, root: u64, workers: usize, scale: u64) -> i32 {
         }
     });
     let wall = start.elapsed().as_secs_f64();
+    crate::util::dump_hashes("sim-cli-c13", &results.iter().map(|(st, _)| st.base_identity).collect::<Vec<_>>());
     let mut total = Stats::default();
     let mut violations = Vec::new();
     let mut tuples = std::collections::HashSet::new();
